@@ -2,6 +2,7 @@
 graph; per set: potentials equal, sum of flows zero with inside connectors +, outside connectors -;
 flow variables of connectors that appear in no connect clause are zero."""
 import itertools
+import re
 
 
 def connection_sets(connectors, clauses):
@@ -257,3 +258,145 @@ def render(model, extra_top_decls="", raw_top_equations=None):
 
     emit(model["top"])
     return txt
+
+
+# ---------------------------------------------------------------------------------------------
+# "Rich" family members: models whose components (and top class) carry linear equations of their
+# own over connector members, and models that use SEVERAL connector classes at once (same short
+# name in different packages, local connector classes, redeclared replaceable connectors,
+# connectors with input/output/parameter/constant members).
+#
+# A description is a plain dict
+#   {"text": Modelica text, "top": class name,
+#    "groups": [{"pot": [member], "flo": [member], "other": [member],     one per connector class
+#                "connectors": [(flat connector name, inside?)]}],
+#    "clauses": [(flat connector name, flat connector name)],             each within one group
+#    "rows": [({flat variable: coefficient}, constant)],                  sum + constant = 0
+#    "vars": [flat names of the non-connector variables]}
+# The reference is: connection-set equations per connector class (the members of THAT class) and the
+# model's own equations, read from the same strings that are rendered into the text.
+# ---------------------------------------------------------------------------------------------
+_TERM = re.compile(r"\s*([+-]?)\s*(?:(\d+)\s*\*\s*)?([A-Za-z_][\w.]*|\d+)\s*")
+
+
+def linear_row(eq_text, prefix=""):
+    """'p.i = 2*x + 1' -> ({prefix+'p.i': 1, prefix+'x': -2}, -1), i.e. lhs - rhs as coefficients and constant."""
+    lhs, rhs = eq_text.split("=")
+    row, const = {}, 0
+    for side, sgn in ((lhs, 1), (rhs, -1)):
+        pos = 0
+        while pos < len(side):
+            m = _TERM.match(side, pos)
+            if not m or m.end() == pos:
+                raise ValueError("cannot read linear equation %r" % eq_text)
+            pos = m.end()
+            c = sgn * (-1 if m.group(1) == "-" else 1) * int(m.group(2) or 1)
+            t = m.group(3)
+            if t[0].isdigit():
+                const += c * int(t)
+            else:
+                row[prefix + t] = row.get(prefix + t, 0) + c
+    return row, const
+
+
+def rich_expected_symbols(desc):
+    out = set(desc.get("vars", []))
+    for g in desc["groups"]:
+        for c, _ in g["connectors"]:
+            out |= {f"{c}.{m}" for m in g["pot"] + g["flo"] + g.get("other", [])}
+    return out
+
+
+def rich_reference_equations(desc, var):
+    """z3 constraints; var(name) -> z3 Real."""
+    eqs = []
+    for g in desc["groups"]:
+        names = [c for c, _ in g["connectors"]]
+        own = [cl for cl in desc["clauses"] if cl[0] in names or cl[1] in names]
+        if any(not (a in names and b in names) for a, b in own):
+            raise ValueError("connect clause across connector classes")
+        eqs += reference_equations(names, dict(g["connectors"]), g["pot"], g["flo"], own, lambda c, x: var(f"{c}.{x}"))
+    for row, const in desc.get("rows", []):
+        total = None
+        for n, c in row.items():
+            t = c * var(n)
+            total = t if total is None else total + t
+        eqs.append((total if total is not None else 0) + const == 0)
+    return eqs
+
+
+def _pin_text(name, pot, flo, indent="", extends=None, other_text=""):
+    t = f"{indent}connector {name}\n" + (f"{indent}  extends {extends};\n" if extends else "")
+    t += "".join(f"{indent}  Real {p};\n" for p in pot) + "".join(f"{indent}  flow Real {f};\n" for f in flo)
+    return t + other_text + f"{indent}end {name};\n"
+
+
+def equations_model(comp_eqs, top_eqs, clauses, k=1, m=1, top_first=False):
+    """Comp (connectors p, n, variable x) with its own equations comp_eqs (names local to Comp); M has
+    components a, b, c, top connectors P, Q, variable y, its own equations top_eqs (flat names) and the clauses."""
+    pot = ["v"] if k == 1 else [f"v{j}" for j in range(1, k + 1)]
+    flo = ["i"] if m == 1 else [f"i{j}" for j in range(1, m + 1)]
+    text = _pin_text("Pin", pot, flo)
+    text += "model Comp\n  Pin p;\n  Pin n;\n  Real x;\n" + ("equation\n" + "".join(f"  {e};\n" for e in comp_eqs) if comp_eqs else "") + "end Comp;\n"
+    con = "".join(f"  connect({a}, {b});\n" for a, b in clauses)
+    own = "".join(f"  {e};\n" for e in top_eqs)
+    body = (own + con) if top_first else (con + own)
+    text += "model M\n  Comp a;\n  Comp b;\n  Comp c;\n  Pin P;\n  Pin Q;\n  Real y;\n" + ("equation\n" + body if body else "") + "end M;\n"
+    comps = ["a", "b", "c"]
+    connectors = [(f"{c}.{p}", True) for c in comps for p in ("p", "n")] + [("P", False), ("Q", False)]
+    rows = [linear_row(e, c + ".") for c in comps for e in comp_eqs] + [linear_row(e) for e in top_eqs]
+    return {"text": text, "top": "M", "groups": [{"pot": pot, "flo": flo, "connectors": connectors}], "clauses": list(clauses),
+            "rows": rows, "vars": [c + ".x" for c in comps] + ["y"]}
+
+
+# layouts with two connector classes X and Y in one model: name -> (declarations, X spec, Y spec), a spec being
+# (potentials, flows, other members, component declaration format, type name of a top-level connector)
+_KINDS = "  input Real u;\n  output Real w;\n  parameter Real k;\n  constant Real c = 2;\n"
+CLASS_LAYOUTS = {
+    # the same short name in two packages, Y with more members / disjoint members / flow and potential swapped / identical
+    "pkg-same-name": ("package E\n" + _pin_text("Pin", ["v"], ["i"], "  ") + "  model One\n    Pin p;\n  end One;\nend E;\n"
+                      "package T\n" + _pin_text("Pin", ["v", "T"], ["i", "q"], "  ") + "  model One\n    Pin p;\n  end One;\nend T;\n",
+                      (["v"], ["i"], [], "E.One {}", "E.Pin"), (["v", "T"], ["i", "q"], [], "T.One {}", "T.Pin")),
+    "pkg-disjoint": ("package E\n" + _pin_text("Pin", ["v"], ["i"], "  ") + "  model One\n    Pin p;\n  end One;\nend E;\n"
+                     "package T\n" + _pin_text("Pin", ["T"], ["q"], "  ") + "  model One\n    Pin p;\n  end One;\nend T;\n",
+                     (["v"], ["i"], [], "E.One {}", "E.Pin"), (["T"], ["q"], [], "T.One {}", "T.Pin")),
+    "pkg-swapped-flow": ("package E\n" + _pin_text("Pin", ["v"], ["i"], "  ") + "  model One\n    Pin p;\n  end One;\nend E;\n"
+                         "package T\n" + _pin_text("Pin", ["i"], ["v"], "  ") + "  model One\n    Pin p;\n  end One;\nend T;\n",
+                         (["v"], ["i"], [], "E.One {}", "E.Pin"), (["i"], ["v"], [], "T.One {}", "T.Pin")),
+    "pkg-identical": ("package E\n" + _pin_text("Pin", ["v"], ["i"], "  ") + "  model One\n    Pin p;\n  end One;\nend E;\n"
+                      "package T\n" + _pin_text("Pin", ["v"], ["i"], "  ") + "  model One\n    Pin p;\n  end One;\nend T;\n",
+                      (["v"], ["i"], [], "E.One {}", "E.Pin"), (["v"], ["i"], [], "T.One {}", "T.Pin")),
+    # different names (nothing shared)
+    "two-names": (_pin_text("PinA", ["v"], ["i"]) + _pin_text("PinB", ["v", "T"], ["i", "q"])
+                  + "model CA\n  PinA p;\nend CA;\nmodel CB\n  PinB p;\nend CB;\n",
+                  (["v"], ["i"], [], "CA {}", "PinA"), (["v", "T"], ["i", "q"], [], "CB {}", "PinB")),
+    # connector classes declared locally in two models under the same name
+    "local-same-name": ("model CA\n" + _pin_text("C", ["v"], ["i"], "  ") + "  C p;\nend CA;\n"
+                        "model CB\n" + _pin_text("C", ["v", "T"], ["i", "q"], "  ") + "  C p;\nend CB;\n",
+                        (["v"], ["i"], [], "CA {}", "CA.C"), (["v", "T"], ["i", "q"], [], "CB {}", "CB.C")),
+    # inherited members; a replaceable connector redeclared in some instances only
+    "extends": (_pin_text("Base", ["h"], ["q"]) + _pin_text("Ext", ["z"], ["m"], extends="Base")
+                + "model CA\n  Base p;\nend CA;\nmodel CB\n  Ext p;\nend CB;\n",
+                (["h"], ["q"], [], "CA {}", "Base"), (["h", "z"], ["q", "m"], [], "CB {}", "Ext")),
+    "redeclare": (_pin_text("Base", ["h"], ["q"]) + _pin_text("Ext", ["z"], ["m"], extends="Base")
+                  + "model Node\n  replaceable connector port = Base;\n  port p;\nend Node;\n",
+                  (["h"], ["q"], [], "Node {}", "Base"), (["h", "z"], ["q", "m"], [], "Node {}(redeclare connector port = Ext)", "Ext")),
+    # causal, parameter and constant members next to potential and flow ones
+    "member-kinds": (_pin_text("PinA", ["v"], ["i"], other_text=_KINDS) + _pin_text("PinB", ["v"], ["i"])
+                     + "model CA\n  PinA p;\nend CA;\nmodel CB\n  PinB p;\nend CB;\n",
+                     (["u", "v", "w"], ["i"], ["k", "c"], "CA {}", "PinA"), (["v"], ["i"], [], "CB {}", "PinB")),
+}
+CLASS_CONNECTORS = (["x1.p", "x2.p", "tx"], ["y1.p", "y2.p", "ty"])
+
+
+def classes_model(layout, clauses, y_first=False):
+    """M with components x1, x2 (connector class X) and y1, y2 (class Y) and top connectors tx, ty;
+    y_first declares the Y instances before the X ones."""
+    decls, X, Y = CLASS_LAYOUTS[layout]
+    dx = "".join("  " + X[3].format(n) + ";\n" for n in ("x1", "x2")) + f"  {X[4]} tx;\n"
+    dy = "".join("  " + Y[3].format(n) + ";\n" for n in ("y1", "y2")) + f"  {Y[4]} ty;\n"
+    text = decls + "model M\n" + (dy + dx if y_first else dx + dy)
+    text += ("equation\n" + "".join(f"  connect({a}, {b});\n" for a, b in clauses) if clauses else "") + "end M;\n"
+    groups = [{"pot": s[0], "flo": s[1], "other": s[2], "connectors": [(c, "." in c) for c in cs]}
+              for s, cs in zip((X, Y), CLASS_CONNECTORS)]
+    return {"text": text, "top": "M", "groups": groups, "clauses": list(clauses), "rows": [], "vars": []}
